@@ -170,7 +170,9 @@ class _Desugar(ast.NodeTransformer):
             for i in range(len(tg)):
                 w = ast.unparse(tg[i])
                 for j in range(i + 1, len(vs)):
-                    if any(r == w or r.startswith(w + ".") or r.startswith(w + "[") for r in reads(vs[j])) or any(isinstance(x, ast.Call) for x in ast.walk(vs[j])):
+                    # a later value reads what an earlier target writes; or it calls something that could observe an earlier store into an object
+                    if any(r == w or r.startswith(w + ".") or r.startswith(w + "[") for r in reads(vs[j])) or \
+                            (not isinstance(tg[i], ast.Name) and any(isinstance(x, ast.Call) for x in ast.walk(vs[j]))):
                         conflict = True
             out = []
             if conflict:
@@ -255,6 +257,32 @@ class _Desugar(ast.NodeTransformer):
     def visit_Expr(self, st):
         v = st.value
         if isinstance(v, ast.Call):
+            # G.add_edges_from((a, b) for v in S)  ->  for v in S: G.add_edge(a, b)        (networkx bulk form of the same edge insertions)
+            if isinstance(v.func, ast.Attribute) and v.func.attr == "add_edges_from" and len(v.args) == 1 and not v.keywords \
+                    and isinstance(v.args[0], (ast.GeneratorExp, ast.ListComp)) and isinstance(v.args[0].elt, ast.Tuple) and len(v.args[0].elt.elts) == 2:
+                comp = v.args[0]
+                body = [ast.Expr(value=ast.Call(func=ast.Attribute(value=v.func.value, attr="add_edge", ctx=ast.Load()), args=list(comp.elt.elts), keywords=[]))]
+                for g in reversed(comp.generators):
+                    for c in reversed(g.ifs):
+                        body = [ast.If(test=c, body=body, orelse=[])]
+                    body = [ast.For(target=g.target, iter=g.iter, body=body, orelse=[], type_comment=None)]
+                return self.visit(_loc(body[0], st))
+            # f(a, x if c else y)  ->  if c: f(a, x) else: f(a, y)      (a call statement with one conditional argument)
+            slots = [("a", i) for i, a in enumerate(v.args) if isinstance(a, ast.IfExp)] + [("k", i) for i, k in enumerate(v.keywords) if isinstance(k.value, ast.IfExp)]
+            if len(slots) == 1:
+                kind, i = slots[0]
+                ife = v.args[i] if kind == "a" else v.keywords[i].value
+                earlier = v.args[:i] if kind == "a" else list(v.args) + [k.value for k in v.keywords[:i]]
+                if not any(isinstance(x, ast.Call) for a in earlier + [v.func] for x in ast.walk(a)):     # evaluation order of earlier arguments is not disturbed
+                    def variant(val):
+                        c = copy.deepcopy(v)
+                        if kind == "a":
+                            c.args[i] = val
+                        else:
+                            c.keywords[i].value = val
+                        return ast.Expr(value=c)
+                    new = ast.If(test=ife.test, body=[variant(ife.body)], orelse=[variant(ife.orelse)])
+                    return self.visit(_loc(new, st))
             lk = _lookup(v.func, self.lits)
             if lk is not None:
                 d, key, default, strict = lk
@@ -370,10 +398,82 @@ def _compose_comprehensions(fn):
             return
 
 
+def _split_tuple_locals(fn):
+    """a local that only ever holds tuple displays of one arity k, and is only read whole or through constant indices, is replaced by k scalar locals
+    (`best = (a, b, c)` / `best[2]` / `x, y, z = best`  ->  `best_0 = a; best_1 = b; best_2 = c` / `best_2` / `x = best_0; ...`)"""
+    params = {a.arg for a in fn.args.args} | ({fn.args.vararg.arg} if fn.args.vararg else set()) | ({fn.args.kwarg.arg} if fn.args.kwarg else set())
+    arity, bad = {}, set()
+    for x in ast.walk(fn):
+        if isinstance(x, ast.Assign) and len(x.targets) == 1 and isinstance(x.targets[0], ast.Name):
+            n = x.targets[0].id
+            if isinstance(x.value, ast.Tuple) and not any(isinstance(e, ast.Starred) for e in x.value.elts) and len(x.value.elts) >= 2:
+                if arity.setdefault(n, len(x.value.elts)) != len(x.value.elts):
+                    bad.add(n)
+            else:
+                bad.add(n)
+        elif isinstance(x, (ast.For, ast.comprehension, ast.AugAssign, ast.With, ast.NamedExpr, ast.Delete, ast.ExceptHandler)):
+            for t in ast.walk(x.target if hasattr(x, "target") else x):
+                if isinstance(t, ast.Name) and isinstance(t.ctx, (ast.Store, ast.Del)):
+                    bad.add(t.id)
+        elif isinstance(x, ast.Assign):
+            for t in x.targets:
+                for y in ast.walk(t):
+                    if isinstance(y, ast.Name) and isinstance(y.ctx, ast.Store):
+                        bad.add(y.id)
+        if isinstance(x, (ast.Lambda, ast.FunctionDef)) and x is not fn:
+            for y in ast.walk(x):
+                if isinstance(y, ast.Name):
+                    bad.add(y.id)
+    cands = {n: k for n, k in arity.items() if n not in bad and n not in params}
+    if not cands:
+        return
+    # reads: constant subscripts must be in range
+    for x in ast.walk(fn):
+        if isinstance(x, ast.Subscript) and isinstance(x.value, ast.Name) and x.value.id in cands:
+            if not (isinstance(x.slice, ast.Constant) and isinstance(x.slice.value, int) and 0 <= x.slice.value < cands[x.value.id]) or not isinstance(x.ctx, ast.Load):
+                cands.pop(x.value.id, None)
+    # only worth it (and only then a normal form) when the tuple is taken apart somewhere: indexed by a constant or unpacked
+    apart = set()
+    for x in ast.walk(fn):
+        if isinstance(x, ast.Subscript) and isinstance(x.value, ast.Name) and x.value.id in cands:
+            apart.add(x.value.id)
+        if isinstance(x, ast.Assign) and isinstance(x.value, ast.Name) and x.value.id in cands and len(x.targets) == 1 and isinstance(x.targets[0], (ast.Tuple, ast.List)):
+            apart.add(x.value.id)
+    cands = {n: k for n, k in cands.items() if n in apart}
+    if not cands:
+        return
+
+    def comp(n, i, ctx):
+        return ast.Name(id="%s_%d" % (n, i), ctx=ctx)
+
+    class T(ast.NodeTransformer):
+        def visit_Subscript(self, x):
+            if isinstance(x.value, ast.Name) and x.value.id in cands and isinstance(x.slice, ast.Constant):
+                return ast.copy_location(comp(x.value.id, x.slice.value, ast.Load()), x)
+            self.generic_visit(x)
+            return x
+
+        def visit_Name(self, x):
+            if isinstance(x.ctx, ast.Load) and x.id in cands:
+                return ast.copy_location(ast.Tuple(elts=[comp(x.id, i, ast.Load()) for i in range(cands[x.id])], ctx=ast.Load()), x)
+            return x
+
+        def visit_Assign(self, x):
+            if len(x.targets) == 1 and isinstance(x.targets[0], ast.Name) and x.targets[0].id in cands:
+                x.value = self.visit(x.value)
+                x.targets = [ast.copy_location(ast.Tuple(elts=[comp(x.targets[0].id, i, ast.Store()) for i in range(cands[x.targets[0].id])], ctx=ast.Store()), x.targets[0])]
+                return x
+            self.generic_visit(x)
+            return x
+    T().visit(fn)
+    ast.fix_missing_locations(fn)
+
+
 def desugar_function(fn):
     """rewrite fn.body in place; returns True if something changed"""
     before = ast.dump(fn)
     _bound_method_locals(fn)
+    _split_tuple_locals(fn)
     _compose_comprehensions(fn)
     lits = _dict_literals(fn)
     d = _Desugar(lits)
@@ -553,12 +653,13 @@ def _specialise_in(P, ci, mro, fn, anchors):
             if c in P.classes and f.attr in P.classes[c].methods:
                 h = P.classes[c].methods[f.attr]
                 break
-        if h is None or h is fn or h.decorator_list or h.args.vararg or h.args.kwarg or h.args.kwonlyargs:
+        static = [d for d in (h.decorator_list if h is not None else []) if isinstance(d, ast.Name) and d.id == "staticmethod"]
+        if h is None or h is fn or len(h.decorator_list) != len(static) or h.args.vararg or h.args.kwarg or h.args.kwonlyargs:
             return None
         hbody = [s for s in h.body if not (isinstance(s, ast.Expr) and isinstance(s.value, ast.Constant))]
         if any(isinstance(x, (ast.Return, ast.Yield, ast.YieldFrom, ast.Global, ast.Nonlocal)) for s in hbody for x in ast.walk(s)):
             return None
-        params = [a.arg for a in h.args.args][1:]
+        params = [a.arg for a in h.args.args][(0 if static else 1):]
         bound = {}
         for pn, a in zip(params, call.args):
             bound[pn] = a
@@ -572,15 +673,23 @@ def _specialise_in(P, ci, mro, fn, anchors):
             return None
         gens_here = local_gens(fn)
         genargs = {}
+        displays = 0
         for pn, a in bound.items():
             if isinstance(a, ast.GeneratorExp):
                 genargs[pn] = a
             elif isinstance(a, ast.Name) and a.id in gens_here:
                 genargs[pn] = gens_here[a.id].value
+            elif isinstance(a, (ast.List, ast.Tuple, ast.Dict, ast.Set)) and _is_literal(a):
+                displays += 1           # a table passed as a literal: the helper is specialised to it
             elif not isinstance(a, (ast.Constant, ast.Name, ast.Attribute)):
                 return None
-        if not genargs:
+        if not genargs and not displays:
             return None
+        if displays:
+            # literal tables are substituted textually: each such parameter must be read once
+            for pn, a in bound.items():
+                if isinstance(a, (ast.List, ast.Tuple, ast.Dict, ast.Set)) and sum(1 for s_ in hbody for x in ast.walk(s_) if isinstance(x, ast.Name) and x.id == pn) != 1:
+                    return None
         env = {k: v.value for k, v in gens_here.items()}
         body = copy.deepcopy(hbody)
         # each generator parameter must be consumed by exactly one `for T in P:` and used nowhere else
